@@ -8,10 +8,12 @@ RULE = ("correspondence: random operation sequences (pushes incl. forced/dry-mas
         "QueueTank/DecayQueueTank, Arc/PullArc/PushArc, QueueArc/DecayArc and AltQueueArc/DecayArcAlt between tank-backed or scripted (accept all / "
         "part / none, varying per call) neighbours, over random pollutant partitions; the whole observable state after "
         "every operation is compared exactly with the Gallina model. monitors: the C04 clauses evaluated directly on the "
-        "implementation after every operation of fresh sequences. non-trivial = distinct sequence of >= 3 operations")
+        "implementation after every operation of fresh sequences. non-trivial = distinct sequence of >= 3 operations. "
+        "family net: random networks of the real node classes over plain arcs (object of the network-level theorem), every store and arc record compared exactly after every operation")
 
 if __name__ == "__main__":
     sys.exit(comp_check.run("C04", "tank arc qarc altarc qtank".split(), RULE,
                             ["exact-rational semantics stands for float semantics up to rounding",
                              "offers are wet (non-negative, pollutant mass only with positive volume); no arc-level force for capacity clauses",
-                             "end nodes respect the reply contract (proved for tank-backed ends)"]))
+                             "end nodes respect the reply contract (proved for tank-backed ends)"],
+                            net_corr=(200, 2000)))
